@@ -233,10 +233,6 @@ def sStep (s : DState) (j : Json) : Except String (DState × Json) := do
     | none => return (s1, jOut (jObj ([("config", Json.null), ("consumed", jNat n)] ++ jStateOf s1)))
     | some c =>
       let cc ← liftE (castConfigValues c s.space)
-      -- `_on_config_suggest`: register_pending(trial_id, config)
-      let s2 := match s1.kind with
-        | .random => { s1 with rst := s1.rst.registerPending s1.rimm tid (some cc) }
-        | _ => s1
       let cc2 ← (match j.getObjVal? "override" with
         | .ok ov => do
           let a ← ov.getArr?
@@ -244,6 +240,11 @@ def sStep (s : DState) (j : Json) : Except String (DState × Json) := do
           | [k, v] => do return cset (← k.getStr?) (← pVal v) cc
           | _ => throw "override"
         | .error _ => pure cc)
+      -- `_on_config_suggest`: register_pending(trial_id, config); the dict object stored by the
+      -- searcher is the one the scheduler then extends with `max_resource_attr` (aliasing)
+      let s2 := match s1.kind with
+        | .random => { s1 with rst := s1.rst.registerPending s1.rimm tid (some cc2) }
+        | _ => s1
       let full ← liftE (postprocess s.space cc2)
       return (s2, jOut (jObj ([("config", jConfig full), ("consumed", jNat n)] ++ jStateOf s2)))
   else if op == "register_pending" then
